@@ -107,6 +107,7 @@ def obligations(tier, seed):
     base += profiles.wf_cubes(3, ["shared2"] if not thorough else ["shared2", "private"], 2, H=H, name="m3",
                               edge_sets=None if thorough else [[(0, 1), (0, 2)], [(0, 2), (1, 2)], [(0, 1), (1, 2)]])
     base += profiles.p_absence(wmax=2, H=H, kinds=(0, 2) if not thorough else (0, 1, 2, 3))
+    base += profiles.p_absence(wmax=2, H=H, kinds=(0, 1) if not thorough else (0, 1, 2, 3), worker_absence=False)
     base += profiles.p_rules(wmax=2, H=H, rules=(0, 4, 5) if not thorough else range(9))
     base += [ob for ob in profiles.p_facility(thorough, H=H) if "fsk=all" in ob["name"] and "solof=0" in ob["name"]]
     base += [ob for ob in profiles.p_product("F2", thorough, H=H) if "wps=2" in ob["name"]]
@@ -129,8 +130,10 @@ def obligations(tier, seed):
     for ob in jb:
         ob = dict(ob)
         if not thorough:
-            narrow = {"f11": (1, 1), "a1": (-1, -1), "fa0": (-1, 0), "s00": (1, 2), "f00": (1, 2), "w1": (1, 2), "cap": (1, 2)}
+            narrow = {"f11": (1, 1), "a1": (-1, -1), "fa0": (-1, -1), "s00": (1, 2), "f00": (1, 2), "w1": (1, 1), "cap": (2, 2)}
             ob["params"] = [[n, max(lo, narrow[n][0]), min(hi, narrow[n][1])] if n in narrow else [n, lo, hi] for n, lo, hi in ob["params"]]
+            # enough work for a task that holds two worker-facility pairs over several steps
+            ob["params"] = [[n, lo, 6] if (n == "w0" and "fac/" in ob["name"]) else [n, lo, hi] for n, lo, hi in ob["params"]]
         ob["harness"] = "through_json"
         ob["name"] = "json/" + ob["name"]
         ob["params"] = ob["params"] + [["k", 0, 6]]
